@@ -543,7 +543,27 @@ func (p *Program) CalleeClosure(f *FuncInfo, depth int) []*FuncInfo {
 					return true
 				}
 				cf := Callee(g.Info(), call)
-				if cf == nil || ast.IsExported(cf.Name()) || cf.Pkg() == nil || f.Pkg == nil || cf.Pkg() != f.Pkg.Types {
+				if cf == nil {
+					// a call of a local variable that holds one function literal (a closure helper of the factory)
+					if v, _ := IdentObj(g.Info(), call.Fun).(*types.Var); v != nil && !v.IsField() {
+						root := g
+						if d := p.enclosingDecl(g); d != nil {
+							root = d
+						}
+						defs := defsOf(g.Info(), root.Body(), v)
+						if len(defs) == 1 {
+							if lit, ok := ast.Unparen(defs[0]).(*ast.FuncLit); ok {
+								if h := p.lits[lit]; h != nil && !seen[h] {
+									seen[h] = true
+									out = append(out, h)
+									next = append(next, h)
+								}
+							}
+						}
+					}
+					return true
+				}
+				if ast.IsExported(cf.Name()) || cf.Pkg() == nil || f.Pkg == nil || cf.Pkg() != f.Pkg.Types {
 					return true
 				}
 				if h := p.FuncOf(cf); h != nil && h.Body() != nil && !seen[h] {
@@ -557,4 +577,50 @@ func (p *Program) CalleeClosure(f *FuncInfo, depth int) []*FuncInfo {
 		frontier = next
 	}
 	return out
+}
+
+// InspectScope applies fn to every node of f and of the private helpers it
+// calls (CalleeClosure, depth 2), not descending into nested literals.
+func (p *Program) InspectScope(f *FuncInfo, fn func(g *FuncInfo, n ast.Node) bool) {
+	for _, g := range p.CalleeClosure(f, 2) {
+		g := g
+		InspectNoLit(g.Body(), func(n ast.Node) bool { return fn(g, n) })
+	}
+}
+
+// InlineAny is the broad Inline policy: any unexported function or method of
+// the subject's package that has a body (also a local closure variable with a
+// single literal definition).
+func (p *Program) InlineAny(subject *FuncInfo, exclude ...string) func(call *ast.CallExpr) *FuncInfo {
+	ex := map[string]bool{}
+	for _, e := range exclude {
+		ex[e] = true
+	}
+	root := subject
+	if d := p.enclosingDecl(subject); d != nil {
+		root = d
+	}
+	return func(call *ast.CallExpr) *FuncInfo {
+		info := subject.Info()
+		cf := Callee(info, call)
+		if cf == nil {
+			if v, _ := IdentObj(info, call.Fun).(*types.Var); v != nil && !v.IsField() {
+				defs := defsOf(info, root.Body(), v)
+				if len(defs) == 1 {
+					if lit, ok := ast.Unparen(defs[0]).(*ast.FuncLit); ok {
+						return p.lits[lit]
+					}
+				}
+			}
+			return nil
+		}
+		if ast.IsExported(cf.Name()) || ex[cf.Name()] || cf.Pkg() == nil || subject.Pkg == nil || cf.Pkg() != subject.Pkg.Types {
+			return nil
+		}
+		g := p.FuncOf(cf)
+		if g == nil || g.Decl == nil || g.Body() == nil {
+			return nil
+		}
+		return g
+	}
 }
